@@ -101,10 +101,38 @@ def strip_comments(text: str) -> str:
     return "".join(out)
 
 
-def gate(paths: list[Path] | None = None) -> list[str]:
-    """Return a list of offences (empty = clean) over the Coq tree."""
+def coq_closure(prop: str) -> list[Path]:
+    """Files that Props/<prop>.v transitively requires inside the Snax logical root."""
+    seen: dict[Path, None] = {}
+    todo = [COQ / "Props" / f"{prop}.v"]
+    while todo:
+        f = todo.pop()
+        if f in seen or not f.exists():
+            continue
+        seen[f] = None
+        txt = strip_comments(f.read_text())
+        for sentence in re.split(r"\.\s", txt):
+            m = re.match(r"\s*(?:From\s+Snax\s+)?Require\s+(?:Import\s+|Export\s+)?(.*)$", sentence.strip(), re.S)
+            if not m:
+                continue
+            for name in m.group(1).split():
+                name = name.removeprefix("Snax.")
+                cand = COQ / (name.replace(".", "/") + ".v")
+                if cand.exists():
+                    todo.append(cand)
+    return list(seen)
+
+
+def gate(paths: list[Path] | None = None, prop: str | None = None) -> list[str]:
+    """Return a list of offences (empty = clean): over the dependency closure of Props/<prop>.v when
+    `prop` is given, else over the whole Coq tree (tools/validate.py runs the development-wide scan)."""
     offences = []
-    files = paths if paths is not None else [p for p in COQ.rglob("*.v") if "Cases" not in p.parts]
+    if paths is not None:
+        files = paths
+    elif prop is not None:
+        files = coq_closure(prop)
+    else:
+        files = [p for p in COQ.rglob("*.v") if "Cases" not in p.parts]
     for f in files:
         txt = strip_comments(f.read_text())
         sec_depth = 0
